@@ -555,6 +555,39 @@ def _run(ctx):
                 cv_ = P.val_call(cp, body, b)
                 qcalls.append((b, common.subst_params(iv, {("param", w.path, k_): a_ for k_, a_ in enumerate(cv_[4])})))
         by_idx = {}
+        # loop form: `for (i, a) in asset_infos.iter().enumerate() { decimals[i] = a.query_decimals(..)? }` over the fixed-size
+        # pair: one query site serves both positions, element i of the result belongs to asset i
+        loop_q = None
+        enum_loops = {}
+        for l_ in common.loops(P, cp):
+            if not l_["is_loop"]:
+                continue
+            try:
+                ads_l, kind_l, src_l = common.iter_chain(l_["iter"])
+            except Exception:
+                continue
+            if [a for a, _ in ads_l] == ["enumerate"] and kind_l in ("iter", "into_iter") and set(ctx.roots(src_l)) == {P_(cp, infos_i)}:
+                enum_loops[l_["item_root"]] = l_
+        for b, v in list(qcalls):
+            ar = "|".join(sorted(ctx.roots(v[4][0])))
+            if ar.endswith(".1") and ar[:-2] in enum_loops and len(qcalls) == 1:
+                l_ = enum_loops[ar[:-2]]
+                acct = set(ctx.roots(v[4][1]))
+                pg = common.propagated(P, cp, b)
+                lb_ = body.reachable_from(l_["some_edge"][1], cut_edges=(l_["none_edge"],))
+                inner_c = [c_ for c_ in common.control_conditions(P, cp, b) if c_["sw"] in lb_ and c_["sw"] != l_["switch"] and
+                           not (c_["cond"][0] == "discr" and c_["allowed"] in (["Continue"], ["Ok"]))]
+                if acct != {P_(cp, env, ".contract.address")}:
+                    r5.fail("C16.R5:query-account", cp.path, common.span_of_block_term(cp, b), "native decimals are looked up at %s, expected the factory's own address" % sorted(acct))
+                elif pg is None or not common.fail_edge_only_errors(P, cp, pg[2], sinks)[0]:
+                    r5.fail("C16.R5:invalid-asset-accepted", cp.path, common.span_of_block_term(cp, b), "an asset whose decimals cannot be queried is not rejected")
+                elif inner_c or any(not body.edge_dominates(l_["none_edge"], sb) for sb in sinks):
+                    r5.fail("C16.R5:query-not-dominating", cp.path, common.span_of_block_term(cp, b), "the per-asset decimals query is conditional, or creation effects do not wait for the loop over both assets")
+                else:
+                    qroot_ = "C:%s@%s:bb%d" % (qd.path, v[1], v[2])
+                    loop_q = (ar[:-2], qroot_)
+                    r5.site("decimals queried for every asset of the pair in a loop over asset_infos.iter().enumerate(), failure => Err")
+                qcalls.remove((b, v))
         for b, v in qcalls:
             ar = "|".join(sorted(ctx.roots(v[4][0])))
             m = re.match(r"^%s\[(\d)\]$" % re.escape(P_(cp, infos_i)), ar)
@@ -576,14 +609,21 @@ def _run(ctx):
                     if not body.edge_dominates(cont, sb):
                         r5.fail("C16.R5:query-not-dominating", cp.path, common.span_of_block_term(cp, sb), "creation effects are reachable without a successful decimals query of asset %s" % m.group(1))
             by_idx[int(m.group(1))] = "C:%s@%s:bb%d" % (qd.path, v[1], v[2])
+        if loop_q is not None and not by_idx:
+            by_idx = {0: loop_q[1], 1: loop_q[1]}
         if sorted(by_idx) != [0, 1]:
             r5.fail("C16.R5:coverage", cp.path, cp.span, "decimals are queried for assets %s, expected both" % sorted(by_idx))
         else:
             want = "A:array[%s;%s]" % (by_idx[0], by_idx[1])
+            if loop_q is not None:
+                # the array written at the enumerate index of the very element that was queried
+                want = "A:repeat|X:upd(A:repeat;[@%s.0];%s)" % loop_q
 
             def decimals_array_ok(arrv):
                 """element k is the result of the decimals query *of asset k* (decided on the value, so that two calls of one
                 forwarding wrapper — same inner call site — are still told apart by their argument)"""
+                if loop_q is not None:
+                    return "|".join(sorted(ctx.roots(arrv))) == want
                 arrv = common.inline_helpers(P, arrv)
                 while arrv[0] == "call" and isinstance(arrv[3], str) and common.transparent_arg(arrv[3]) is not None:
                     arrv = arrv[4][common.transparent_arg(arrv[3])]
@@ -608,12 +648,35 @@ def _run(ctx):
             for (fn, b, i, adt, var, v, span) in common.message_sites(P):
                 if fn.path == cp.path and common.adt_short(adt) == "WasmMsg" and var == "Instantiate":
                     pay = "|".join(sorted(ctx.roots(dict(v[3])["msg"])))
-                    im_ = [x for x in common.walk(dict(v[3])["msg"]) if x[0] == "agg" and x[1] == "adt" and "asset_decimals" in dict(x[3])]
+                    im_ = [x for x in common.walk(common.inline_helpers(P, dict(v[3])["msg"])) if x[0] == "agg" and x[1] == "adt" and "asset_decimals" in dict(x[3])]
+                    im_ = [x for k_, x in enumerate(im_) if x not in im_[:k_]]
                     elem_ok = len(im_) == 1 and decimals_array_ok(dict(im_[0][3])["asset_decimals"])
                     if ("asset_decimals=%s," % want) not in pay or ("asset_infos=%s," % P_(cp, infos_i)) not in pay or not elem_ok:
                         r5.fail("C16.R5:instantiate-msg", cp.path, span.replace("!x", ""), "pair InstantiateMsg does not carry the queried decimals / the given assets: %s" % pay[:300])
                     else:
                         r5.site("pair InstantiateMsg carries the same decimals and the given assets")
+                    # the first-provision requirements (whitelist, both minimums) the pair will enforce are the ones given to
+                    # CreatePair: the message field is the handler's parameter, whole or rebuilt field by field from itself
+                    if len(im_) == 1 and "requirements" in dict(im_[0][3]):
+                        rq = dict(im_[0][3])["requirements"]
+                        try:
+                            rty = ctx.N.field_ty(str(im_[0][2]), None, "requirements")
+                        except AnchorMissing:
+                            rty = None
+                        rq_i = common.param_index_of_type(cp, "^%s$" % re.escape(rty)) if rty else None
+                        if rq_i is not None:
+                            RQ = P_(cp, rq_i)
+                            rr = set(ctx.roots(rq))
+                            okq = rr == {RQ}
+                            if not okq:
+                                a_ = P.adts.get(rty)
+                                fns_ = [f_["name"] for f_ in a_["variants"][0]["fields"]] if a_ else []
+                                okq = bool(fns_) and all(set(ctx.roots(rq, (("f", n_),))) == {"%s.%s" % (RQ, n_)} for n_ in fns_)
+                            if okq:
+                                r5.site("pair InstantiateMsg.requirements ⊢ CreatePair's requirements (every field)")
+                            else:
+                                r5.fail("C16.R5:instantiate-requirements", cp.path, span.replace("!x", ""),
+                                        "pair InstantiateMsg.requirements ⊢ %s, expected the requirements given to CreatePair field by field: the pair would enforce other first-provision minimums / another whitelist than configured" % sorted(rr)[:3])
 
     # ---- R6 reply ------------------------------------------------------------------------------------------------------------------
     saves = [(b, v) for (b, op, item, v) in common.storage_sites(P, reply, writes=True) if item == ctx.N.PAIRS]
@@ -648,7 +711,8 @@ def _run(ctx):
                     r6.site("%s ⊢ pair's own %s" % (name, name))
             cr = fr_("commission_rate")
             crv = [x for x in common.walk(proj_field(rec, "commission_rate")) if x[0] == "proj" or x[0] == "call"]
-            if (qroot + ".commission_rate") not in cr and not any((qroot + ".commission_rate") in "|".join(sorted(ctx.roots(x))) for x in common.walk(proj_field(rec, "commission_rate"))):
+            crx = common.inline_helpers(P, proj_field(rec, "commission_rate"))       # the record may be assembled by a private constructor helper
+            if (qroot + ".commission_rate") not in cr and not any((qroot + ".commission_rate") in "|".join(sorted(ctx.roots(x))) for x in list(common.walk(proj_field(rec, "commission_rate"))) + list(common.walk(crx))):
                 r6.fail("C16.R6:commission_rate", reply.path, where, "registered commission_rate ⊢ %s, expected the pair's own commission_rate" % cr)
             else:
                 r6.site("commission_rate ⊢ pair's own commission_rate (via text round trip)")
